@@ -131,7 +131,7 @@ var (
 func (c *Canary) DecodeHTTPS(conn net.Conn) error {
 	defer conn.Close()
 
-	buff := make([]byte, 2048)
+	buff := make([]byte, socketReadBufferSize)
 	n, _ := conn.Read(buff)
 
 	offset := 0
@@ -214,7 +214,7 @@ var (
 func (c *Canary) DecodeMSSQL(conn net.Conn) error {
 	defer conn.Close()
 
-	buff := make([]byte, 2048)
+	buff := make([]byte, socketReadBufferSize)
 	n, _ := conn.Read(buff)
 
 	// add specific detections, reflection attack detection etc
@@ -239,7 +239,7 @@ var (
 func (c *Canary) DecodeTelnet(conn net.Conn) error {
 	defer conn.Close()
 
-	buff := make([]byte, 2048)
+	buff := make([]byte, socketReadBufferSize)
 	n, _ := conn.Read(buff)
 
 	// add specific detections, reflection attack detection etc
@@ -264,7 +264,7 @@ var (
 func (c *Canary) DecodeRedis(conn net.Conn) error {
 	defer conn.Close()
 
-	buff := make([]byte, 2048)
+	buff := make([]byte, socketReadBufferSize)
 	n, _ := conn.Read(buff)
 
 	// add specific detections, reflection attack detection etc
@@ -289,7 +289,7 @@ var (
 func (c *Canary) DecodeRDP(conn net.Conn) error {
 	defer conn.Close()
 
-	buff := make([]byte, 2048)
+	buff := make([]byte, socketReadBufferSize)
 	n, _ := conn.Read(buff)
 
 	// add specific detections, reflection attack detection etc
@@ -314,7 +314,7 @@ var (
 func (c *Canary) DecodeFTP(conn net.Conn) error {
 	defer conn.Close()
 
-	buff := make([]byte, 2048)
+	buff := make([]byte, socketReadBufferSize)
 	n, _ := conn.Read(buff)
 
 	// add specific detections, reflection attack detection etc
@@ -339,7 +339,7 @@ var (
 func (c *Canary) DecodeNBTIP(conn net.Conn) error {
 	defer conn.Close()
 
-	buff := make([]byte, 2048)
+	buff := make([]byte, socketReadBufferSize)
 	n, _ := conn.Read(buff)
 
 	// add specific detections, reflection attack detection etc
@@ -364,7 +364,7 @@ var (
 func (c *Canary) DecodeSMBIP(conn net.Conn) error {
 	defer conn.Close()
 
-	buff := make([]byte, 2048)
+	buff := make([]byte, socketReadBufferSize)
 	n, _ := conn.Read(buff)
 	r := bytes.NewBuffer(buff)
 
